@@ -225,6 +225,22 @@ def run_impl(ctx, case):
             "names_ok": [a.name for a in res] == [a.name for a in tgt]}
 
 
+def safe_run(ctx, case):
+    """run_impl, but an exception raised by the library is an oracle failure (the properties quantify
+    over inputs for which the map must exist), not an internal error of the check"""
+    try:
+        return run_impl(ctx, case)
+    except Exception as e:   # noqa: BLE001
+        import traceback
+        tb = traceback.extract_tb(e.__traceback__)
+        where = next((f"{fr.filename.split('/')[-1]}:{fr.name}" for fr in reversed(tb) if "gaddlemaps" in fr.filename), "harness")
+        if where == "harness":
+            raise
+        ctx.case(case, nontrivial=False)
+        ctx.oracle_fail(f"exchange_map:raises-{type(e).__name__}@{where}:{case.get('cls', '?')}", case, {"error": repr(e)})
+        return None
+
+
 def ask_model(ctx, case, impl, argpos, draws_call, out, what):
     refpos = case["ref"]["pos"]
     n = len(refpos)
